@@ -369,6 +369,13 @@ def build_index(rec, go=False, for_frame=False):
         return cls(sf.core.index_auto.PositionsAllocator.get(len(labels)), loc_is_iloc=True, name=name)
     if kind == 'ih':
         cls = sf.IndexHierarchyGO if go else sf.IndexHierarchy
+        if not labels:
+            return cls.from_labels(labels, name=name, depth_reference=rec.get('depth', 2))
+        # datetime64 levels use the documented datetime-typed index class for that level
+        ctors = [sf.IndexDate if all(isinstance(t[d], np.datetime64) for t in labels) else sf.Index
+                 for d in range(len(labels[0]))]
+        if any(c is sf.IndexDate for c in ctors):
+            return cls.from_labels(labels, name=name, index_constructors=ctors)
         return cls.from_labels(labels, name=name)
     if kind == 'date':
         cls = sf.IndexDateGO if go else sf.IndexDate
@@ -493,3 +500,26 @@ def positions_of(key, n):
             raise IndexError(k)
         out.append(k % n)
     return out, False
+
+
+def is_tree_order(labels):
+    """True when a list of label tuples can be held by an IndexHierarchy in this order:
+    at every depth the tuples sharing a prefix are contiguous."""
+    if not labels:
+        return True
+    depth = len(labels[0])
+    from vf.base import canon
+    lab = [canon(t) for t in labels]
+    if len(set(lab)) != len(lab):
+        return False
+    for d in range(1, depth):
+        seen = set()
+        prev = None
+        for t in lab:
+            pre = t[:d]
+            if pre != prev:
+                if pre in seen:
+                    return False
+                seen.add(pre)
+                prev = pre
+    return True
